@@ -25,7 +25,7 @@ Definition step_part (L : N) (i : nat) (part : list N) (st : rstate) : rres rsta
   (* i == 1, suffix form *)
   let st3 := if Nat.eqb i 1 && nonempty && r_noprov s2 then
                match parse_u64 num with
-               | Some v => if N.ltb L v then RPanicSub else ROk' (mkRs (L - v) L (r_noprov s2))
+               | Some v => ROk' (mkRs (L - v) L (r_noprov s2))     (* saturating_sub (fix 6d64248); N subtraction truncates at 0 *)
                | None => R416 end
              else ROk' s2 in
   match st3 with R416 => R416 | RPanicSub => RPanicSub | ROk' s3 =>
@@ -53,7 +53,7 @@ Definition asc (l : list N) := l.
 Example r1 : parse_range 10 [50;45;53] = ROk' (2, 5). Proof. vm_compute. reflexivity. Qed.          (* "2-5"  *)
 Example r2 : parse_range 10 [45;51] = ROk' (7, 10). Proof. vm_compute. reflexivity. Qed.            (* "-3": labelled 7-10 *)
 Example r3 : parse_range 10 [48;45] = ROk' (0, 10). Proof. vm_compute. reflexivity. Qed.            (* "0-"  *)
-Example r4 : parse_range 10 [45;49;49] = RPanicSub. Proof. vm_compute. reflexivity. Qed.            (* "-11" *)
+Example r4 : parse_range 10 [45;49;49] = ROk' (0, 10). Proof. vm_compute. reflexivity. Qed.         (* "-11": whole file (was an overflow panic) *)
 Example r5 : parse_range 10 [48;45;49;49] = R416. Proof. vm_compute. reflexivity. Qed.              (* "0-11" *)
 Example r6 : parse_range 10 [45;45;49] = ROk' (0, 10). Proof. vm_compute. reflexivity. Qed.         (* "--1" *)
 Example r7 : parse_range 10 [49;45;50;45;51] = ROk' (1, 2). Proof. vm_compute. reflexivity. Qed.    (* "1-2-3" *)
